@@ -51,7 +51,7 @@ def _rand_c01(rng, tier, sc0):
             # recursive logging: the message of a record logs another record while it is being formatted
             for st in steps:
                 if st["op"] == "Log" and st["len"] >= 12 and rng.random() < 0.3:
-                    st["recursive"] = True
+                    st["recursive"] = rng.choice([1, 1, 2, 3])      # nesting depth
                     st["ilen"] = rng.choice([12, 12, 30, c.get("size", 10) + 12, c.get("cap", 64) + 1])
         out.append({"sc": sc0 + i, "cfg": c, "t0": G.boundary_t0(rng), "steps": steps,
                     "origin": "rand", "obs": "every" if nrec <= 20 else "sync"})
@@ -1555,7 +1555,7 @@ def _c10_op_steps(cls, rng, nfam):
     if cls == "log_huge":
         return [{"op": "Log", "len": rng.choice([65536, 1048576])}]
     if cls == "log_recursive":
-        return [{"op": "Log", "len": 20, "recursive": True, "ilen": rng.choice([12, 40, 200])}]
+        return [{"op": "Log", "len": 20, "recursive": rng.choice([1, 2, 3]), "ilen": rng.choice([12, 40, 200])}]
     if cls == "log_no_fields":
         return [{"op": "Log", "len": 20, "nomod": True, "query": True}]
     t = {"log_target_empty": ["", " "], "log_brace_open": ["{", "{{", "}"], "log_brace_empty": ["{}", "{,}", "{ }"],
